@@ -4,8 +4,13 @@ namespace Tbox.C05
 
 /-! ### workers -/
 
+/-- a worker that can still take tasks: it has not returned, and has not left the cabinet on its way out -/
+def PC.active : PC → Bool
+  | .exited | .leaving | .exitVol true => false
+  | _ => true
+
 structure WorkerInv (s : State) : Prop where
-  live  : ∀ w, s.pc w ≠ .exited → w ∈ s.cab ∨ w ∈ s.vec
+  live  : ∀ w, (s.pc w).active = true → w ∈ s.cab ∨ w ∈ s.vec
   bound : ∀ w, (w ∈ s.cab ∨ w ∈ s.vec) → w < s.nW
   nodup : (s.cab ++ s.vec).Nodup
   len   : s.cab.length + s.vec.length ≤ s.cfg.max
@@ -14,7 +19,7 @@ structure WorkerInv (s : State) : Prop where
 
 theorem WorkerInv.weaken {s s' : State} (h : WorkerInv s) (h0 : s'.cfg = s.cfg) (h1 : s'.cab = s.cab)
     (h2 : s'.vec = s.vec) (h3 : s'.nW = s.nW) (h4 : s'.phase1 = s.phase1)
-    (hpc : ∀ i, s'.pc i ≠ .exited → s.pc i ≠ .exited) : WorkerInv s' := by
+    (hpc : ∀ i, (s'.pc i).active = true → (s.pc i).active = true) : WorkerInv s' := by
   constructor
   · rw [h1, h2]; intro w hw; exact h.live w (hpc w hw)
   · rw [h1, h2, h3]; exact h.bound
@@ -28,14 +33,14 @@ theorem WorkerInv.of_eq {s s' : State} (h : WorkerInv s) (h0 : s'.cfg = s.cfg) (
   h.weaken h0 h1 h2 h3 h4 (fun i => by rw [h5]; exact id)
 
 /-- a step of worker `w` (not exited before) that only changes its own program counter -/
-theorem WorkerInv.setPc_live {s : State} (h : WorkerInv s) (w : Nat) (p : PC) (hw : s.pc w ≠ .exited) :
+theorem WorkerInv.setPc_live {s : State} (h : WorkerInv s) (w : Nat) (p : PC) (hw : (s.pc w).active = true) :
     WorkerInv (setPc s w p) :=
   h.weaken rfl rfl rfl rfl rfl (fun i => by
     simp only [setPc_pc]; by_cases e : i = w
     · intro _; rw [e]; exact hw
     · simp [e])
 
-theorem WorkerInv.afterPred {s : State} (h : WorkerInv s) (w : Nat) (hw : s.pc w ≠ .exited) :
+theorem WorkerInv.afterPred {s : State} (h : WorkerInv s) (w : Nat) (hw : (s.pc w).active = true) :
     WorkerInv (afterPred s w) := by
   unfold Tbox.C05.afterPred
   split
@@ -50,6 +55,33 @@ theorem WorkerInv.afterPred {s : State} (h : WorkerInv s) (w : Nat) (hw : s.pc w
           exact h.of_eq rfl rfl rfl rfl rfl rfl
   · exact (h.of_eq (s' := { s with lock := true }) rfl rfl rfl rfl rfl rfl).setPc_live w _ hw
 
+/-- worker `w` takes itself out of the cabinet and stops being active -/
+theorem WorkerInv.leave {s : State} (h : WorkerInv s) (w : Nat) (p : PC) (hp : p.active = false)
+    {lq : List LoopItem} {ex : List Nat} :
+    WorkerInv (setPc { s with cab := s.cab.filter (· != w), loopQ := lq, exiting := ex } w p) := by
+  constructor
+  · intro i hi
+    simp only [setPc_pc] at hi
+    by_cases e : i = w
+    · simp [e, hp] at hi
+    · simp only [e, ↓reduceIte] at hi
+      rcases h.live i hi with hh | hh
+      · left; simp [hh, e]
+      · right; exact hh
+  · intro i hi
+    simp only [setPc_cab, setPc_vec, setPc_nW, List.mem_filter] at hi ⊢
+    rcases hi with hh | hh
+    · exact h.bound i (Or.inl hh.1)
+    · exact h.bound i (Or.inr hh)
+  · simp only [setPc_cab, setPc_vec]
+    exact List.Nodup.sublist (List.Sublist.append (List.filter_sublist) (List.Sublist.refl _)) h.nodup
+  · simp only [setPc_cab, setPc_vec, setPc_cfg]
+    have := List.length_filter_le (fun x => x != w) s.cab
+    have := h.len
+    omega
+  · exact h.ph0
+  · intro hp'; simp only [setPc_cab]; rw [h.ph1 hp']; rfl
+
 theorem WorkerInv.step {s : State} (h : WorkerInv s) (st : Step) (hv : valid s st = true) : WorkerInv (step s st) := by
   cases st with
   | execute prio cb =>
@@ -59,7 +91,7 @@ theorem WorkerInv.step {s : State} (h : WorkerInv s) (st : Step) (hv : valid s s
     · exact h
     · rename_i hd
       have hph : s.phase1 = false := by
-        rcases hv.2 with hp | hp
+        rcases hv.1.2 with hp | hp
         · exact hp
         · simp at hp; exact absurd hp hd
       have hvec := h.ph0 hph
@@ -114,7 +146,7 @@ theorem WorkerInv.step {s : State} (h : WorkerInv s) (st : Step) (hv : valid s s
   | snapshot => exact h
   | cleanup1 =>
     simp only [valid, Bool.and_eq_true, Bool.not_eq_true'] at hv
-    have hvec := h.ph0 hv.2
+    have hvec := h.ph0 hv.1.2
     constructor
     · intro w hw
       rcases h.live w hw with hh | hh
@@ -133,8 +165,21 @@ theorem WorkerInv.step {s : State} (h : WorkerInv s) (st : Step) (hv : valid s s
     refine h.weaken rfl rfl rfl rfl rfl (fun i => ?_)
     simp only [Tbox.C05.step]
     by_cases hw : s.pc i = .waiting
-    · intro _; rw [hw]; simp
+    · intro _; rw [hw]; rfl
     · simp [hw]
+  | notifyOne ow =>
+    simp only [valid, Bool.and_eq_true, decide_eq_true_eq, beq_iff_eq] at hv
+    cases ow with
+    | none => exact h.of_eq rfl rfl rfl rfl rfl rfl
+    | some w =>
+      simp only [valid, Bool.and_eq_true, decide_eq_true_eq, beq_iff_eq] at hv
+      refine WorkerInv.setPc_live ?_ w _ (by rw [hv.2]; rfl)
+      exact h.of_eq rfl rfl rfl rfl rfl rfl
+  | threadEnd w =>
+    exact h.weaken rfl rfl rfl rfl rfl (fun i => by
+      simp only [Tbox.C05.step, setPc_pc]; by_cases e : i = w
+      · simp [e, PC.active]
+      · simp [e])
   | join w => exact h.of_eq rfl rfl rfl rfl rfl rfl
   | cleanupRet => exact h.of_eq rfl rfl rfl rfl rfl rfl
   | loopRun =>
@@ -142,37 +187,39 @@ theorem WorkerInv.step {s : State} (h : WorkerInv s) (st : Step) (hv : valid s s
     split
     · exact h
     · exact h.of_eq rfl rfl rfl rfl rfl rfl
-    · exact h.of_eq rfl rfl rfl rfl rfl rfl
+    · split <;> exact h.of_eq rfl rfl rfl rfl rfl rfl
     · exact h.of_eq rfl rfl rfl rfl rfl rfl
   | enter w =>
     simp only [valid, Bool.and_eq_true, Bool.not_eq_true', decide_eq_true_eq, beq_iff_eq] at hv
-    have hw : s.pc w ≠ .exited := by rw [hv.2]; simp
+    have hw : (s.pc w).active = true := by rw [hv.2]; rfl
     simp only [Tbox.C05.step]
     split
-    · exact h.setPc_live w _ hw
+    · split
+      · exact WorkerInv.leave h w (.exitVol true) rfl
+      · exact h.setPc_live w _ hw
     · exact (h.of_eq (s' := { s with idle := s.idle + 1 }) rfl rfl rfl rfl rfl rfl).afterPred w hw
   | block w =>
     simp only [valid, Bool.and_eq_true, decide_eq_true_eq, beq_iff_eq] at hv
-    have hw : s.pc w ≠ .exited := by rw [hv.2]; simp
+    have hw : (s.pc w).active = true := by rw [hv.2]; rfl
     exact (h.of_eq (s' := { s with lock := false }) rfl rfl rfl rfl rfl rfl).setPc_live w _ hw
   | wake w =>
     simp only [valid, Bool.and_eq_true, decide_eq_true_eq, beq_iff_eq] at hv
-    exact h.setPc_live w _ (by rw [hv.2]; simp)
+    exact h.setPc_live w _ (by rw [hv.2]; rfl)
   | reenter w =>
     simp only [valid, Bool.and_eq_true, Bool.not_eq_true', decide_eq_true_eq, beq_iff_eq] at hv
-    exact h.afterPred w (by rw [hv.2]; simp)
+    exact h.afterPred w (by rw [hv.2]; rfl)
   | markDoing w =>
     simp only [Tbox.C05.step]
     split
     · rename_i t hp
-      refine WorkerInv.setPc_live ?_ w _ (by rw [hp]; simp)
+      refine WorkerInv.setPc_live ?_ w _ (by rw [hp]; rfl)
       exact h.of_eq rfl rfl rfl rfl rfl rfl
     · exact h
   | runBody w =>
     simp only [Tbox.C05.step]
     split
     · rename_i t hp
-      refine WorkerInv.setPc_live ?_ w _ (by rw [hp]; simp)
+      refine WorkerInv.setPc_live ?_ w _ (by rw [hp]; rfl)
       exact h.of_eq rfl rfl rfl rfl rfl rfl
     · exact h
   | postCb w =>
@@ -183,46 +230,33 @@ theorem WorkerInv.step {s : State} (h : WorkerInv s) (st : Step) (hv : valid s s
       · split
         · exact h.of_eq rfl rfl rfl rfl rfl rfl
         · exact h
-      · split <;> (rw [hp]; simp)
+      · split <;> (rw [hp]; rfl)
     · exact h
   | finish w =>
     simp only [Tbox.C05.step]
     split
     · rename_i t hp
-      refine WorkerInv.setPc_live ?_ w _ (by rw [hp]; simp)
+      refine WorkerInv.setPc_live ?_ w _ (by rw [hp]; rfl)
       exact h.of_eq rfl rfl rfl rfl rfl rfl
     · exact h
   | selfRemove w =>
-    simp only [valid, Bool.and_eq_true, Bool.not_eq_true', decide_eq_true_eq, beq_iff_eq] at hv
-    have hw : s.pc w ≠ .exited := by rw [hv.2]; simp
     simp only [Tbox.C05.step]
     split
-    · constructor
-      · intro i hi
-        simp only [setPc_pc] at hi
-        by_cases e : i = w
-        · simp [e] at hi
-        · simp only [e, ↓reduceIte] at hi
-          rcases h.live i hi with hh | hh
-          · left; simp [hh, e]
-          · right; exact hh
-      · intro i hi
-        simp only [setPc_cab, setPc_vec, setPc_nW, List.mem_filter] at hi ⊢
-        rcases hi with hh | hh
-        · exact h.bound i (Or.inl hh.1)
-        · exact h.bound i (Or.inr hh)
-      · simp only [setPc_cab, setPc_vec]
-        exact List.Nodup.sublist (List.Sublist.append (List.filter_sublist) (List.Sublist.refl _)) h.nodup
-      · simp only [setPc_cab, setPc_vec, setPc_cfg]
-        have := List.length_filter_le (fun x => x != w) s.cab
-        have := h.len
-        omega
-      · exact h.ph0
-      · intro hp; simp only [setPc_cab]; rw [h.ph1 hp]; rfl
+    · exact h.weaken rfl rfl rfl rfl rfl (fun i => by
+        simp only [setPc_pc]; by_cases e : i = w
+        · simp [e, PC.active]
+        · simp [e])
     · split
-      · exact h.setPc_live w _ hw
-      · refine WorkerInv.setPc_live ?_ w _ hw
-        exact h.of_eq rfl rfl rfl rfl rfl rfl
+      · exact WorkerInv.leave h w .leaving rfl
+      · split
+        · exact h.weaken rfl rfl rfl rfl rfl (fun i => by
+            simp only [setPc_pc]; by_cases e : i = w
+            · simp [e, PC.active]
+            · simp [e])
+        · exact h.weaken rfl rfl rfl rfl rfl (fun i => by
+            simp only [setPc_pc]; by_cases e : i = w
+            · simp [e, PC.active]
+            · simp [e])
 
 theorem WorkerInv.init (c : Cfg) (hc : c.ok = true) : WorkerInv (init c) := by
   simp only [Cfg.ok, Bool.and_eq_true, decide_eq_true_eq] at hc
@@ -232,7 +266,7 @@ theorem WorkerInv.init (c : Cfg) (hc : c.ok = true) : WorkerInv (init c) := by
     left
     by_cases e : w < c.min
     · simp [e]
-    · simp [e] at hw
+    · simp [e, PC.active] at hw
   · intro w hw
     simp only [Tbox.C05.init, List.mem_range] at hw ⊢
     rcases hw with hh | hh
@@ -272,13 +306,13 @@ theorem nodup_subset_length : ∀ (l m : List Nat), l.Nodup → (∀ x ∈ l, x 
     simp only [List.length_cons]; omega
 
 /-- the workers whose thread function has not returned -/
-def liveWorkers (s : State) : List Nat := (List.range s.nW).filter (fun w => s.pc w != .exited)
+def liveWorkers (s : State) : List Nat := (List.range s.nW).filter (fun w => (s.pc w).active)
 
 theorem WorkerInv.live_le {s : State} (h : WorkerInv s) : (liveWorkers s).length ≤ s.cfg.max := by
   have hn : (liveWorkers s).Nodup := List.Nodup.sublist List.filter_sublist List.nodup_range
   have hs : ∀ x ∈ liveWorkers s, x ∈ s.cab ++ s.vec := by
     intro x hx
-    simp only [liveWorkers, List.mem_filter, bne_iff_ne, ne_eq] at hx
+    simp only [liveWorkers, List.mem_filter] at hx
     exact List.mem_append.2 (h.live x hx.2)
   have := nodup_subset_length _ _ hn hs
   have := h.len
